@@ -3,7 +3,7 @@ from __future__ import annotations
 
 import ast
 
-from .. import AnalysisError
+from .. import AnalysisError, SkipClause
 from ..cfg import describe_path, no_exc
 from ..program import FuncInfo, ancestors, enclosing_stmt, norm, walk_local
 from . import c09, delform, fa
@@ -34,11 +34,11 @@ def check_tasks(ctx) -> None:
         if isinstance(n, ast.Call) and isinstance(n.func, ast.Name) and n.func.id == "map" and len(n.args) >= 2 and isinstance(n.args[1], ast.Name):
             task_names.add(n.args[1].id)
     if len(task_names) != 1:
-        raise AnalysisError(f"_multi_deletion: task collection not identified ({sorted(task_names)})")
+        raise SkipClause(f"_multi_deletion: task collection not identified ({sorted(task_names)}) (rows are decided by C06.formulation)")
     tname = next(iter(task_names))
     owner, defs = ctx.inf.lookup_name(fn, tname)
     if not defs:
-        raise AnalysisError("_multi_deletion: the task collection is never assigned")
+        raise SkipClause("_multi_deletion: the task collection is never assigned in a familiar spelling (rows are decided by C06.formulation)")
     for d in defs:
         c = d.value if d.kind == "assign" else None
         ok = False
@@ -131,7 +131,7 @@ def check_status(ctx) -> None:
     solves = [n for n in walk_local(fn.node) if isinstance(n, ast.Call) and isinstance(n.func, ast.Attribute) and n.func.attr == "slim_optimize"]
     rets = [n for n in walk_local(fn.node) if isinstance(n, ast.Return)]
     if not solves or not rets:
-        raise AnalysisError("_get_growth: solve / return not found")
+        raise SkipClause("_get_growth: solve / return not in a familiar spelling (values and statuses are decided by C06.formulation)")
     for s in solves:
         if s.args or any(k.arg == "error_value" for k in s.keywords):
             ctx.bad("C06.status", fn, s, "slim_optimize is not called with its NaN default: a failed solve no longer yields not-a-number growth")
@@ -189,9 +189,9 @@ def run(ctx) -> None:
     ctx.rule("C07.eval", "truth-table evaluation of the rule evaluator (shared with C07)", floor=8)
     c07.check_guard(ctx)
     c07.check_eval(ctx)
-    check_tasks(ctx)
+    ctx.guard(check_tasks, ctx)
     check_scope(ctx)
-    check_status(ctx)
+    ctx.guard(check_status, ctx)
     fa.check_keyed(ctx, "C06.keyed", [("cobra.flux_analysis.deletion", "_multi_deletion")])
     fa.check_chunk(ctx, "C06.chunk", [("cobra.flux_analysis.deletion", "_multi_deletion")])
     p = ctx.prog
